@@ -634,6 +634,25 @@ func randomHistory(r *vh.Rand) []step {
 	}
 	for i := 0; i < n; i++ {
 		x := r.Intn(100)
+		if r.Chance(6) && !prepared {
+			// a flush window that holds new names of one kind only, then a restart and one more name of that kind
+			kind := []string{"metric", "tagkey", "tagvalue"}[r.Intn(3)]
+			one := func() step {
+				switch kind {
+				case "metric":
+					return step{K: "metric", A: r.Intn(len(nsPool)), B: r.Intn(len(mPool))}
+				case "tagkey":
+					return step{K: "tagkey", A: r.Intn(len(nsPool)), B: r.Intn(len(mPool)), C: r.Intn(len(kPool))}
+				}
+				return step{K: "tagvalue", A: r.Intn(len(kPool)), B: r.Intn(len(vPool))}
+			}
+			hs = append(hs, step{K: "flush"})
+			for j := r.Range(1, 3); j > 0; j-- {
+				hs = append(hs, one())
+			}
+			hs = append(hs, step{K: "flush"}, step{K: []string{"crash", "reopen"}[r.Intn(2)]}, one(), one())
+			continue
+		}
 		switch {
 		case x < 18:
 			hs = append(hs, step{K: "metric", A: r.Intn(len(nsPool)), B: r.Intn(len(mPool))})
@@ -697,6 +716,15 @@ func corpus() []corpusCase {
 			{K: "metric", A: 0, B: 0}, {K: "metric", A: 0, B: 1}, {K: "tagkey", A: 0, B: 0, C: 0}, {K: "prepare"},
 			{K: "tagkey", A: 0, B: 0, C: 1}, {K: "metric", A: 1, B: 2}, {K: "tagvalue", A: 0, B: 0}, {K: "field", A: 0, B: 0, C: 0}, {K: "flush", NP: true}, {K: "crash"},
 			{K: "tagkey", A: 0, B: 1, C: 2}, {K: "metric", A: 1, B: 3}, {K: "tagvalue", A: 0, B: 1}, {K: "look"}}},
+		{name: "a flush window with new tag values only, crash, a new tag value", disc: true, hs: []step{
+			{K: "metric", A: 0, B: 0}, {K: "tagkey", A: 0, B: 0, C: 0}, {K: "tagvalue", A: 0, B: 0}, fl,
+			{K: "tagvalue", A: 0, B: 1}, fl, {K: "crash"}, {K: "tagvalue", A: 0, B: 2}, {K: "tagvalue", A: 0, B: 1}, {K: "look"}}},
+		{name: "a flush window with new tag keys only, reopen, a new tag key", disc: true, hs: []step{
+			{K: "metric", A: 0, B: 0}, {K: "tagkey", A: 0, B: 0, C: 0}, {K: "tagvalue", A: 0, B: 0}, fl,
+			{K: "tagkey", A: 0, B: 0, C: 1}, fl, {K: "reopen"}, {K: "tagkey", A: 0, B: 0, C: 2}, {K: "look"}}},
+		{name: "a flush window with new metrics of a known namespace only, crash, a new metric", disc: true, hs: []step{
+			{K: "metric", A: 0, B: 0}, {K: "tagkey", A: 0, B: 0, C: 0}, {K: "tagvalue", A: 0, B: 0}, fl,
+			{K: "metric", A: 0, B: 1}, fl, {K: "crash"}, {K: "metric", A: 0, B: 2}, {K: "look"}}},
 		{name: "crash after the counter sync only", disc: true, hs: []step{
 			{K: "metric", A: 0, B: 0}, {K: "tagkey", A: 0, B: 0, C: 0},
 			{K: "flush", Hooks: [4][]hookStep{{{K: "crash"}}, nil, nil, nil}},
